@@ -1484,6 +1484,7 @@ class Fxp():
             
             y = Fxp(None, signed=self.signed, n_word=self.n_word+n_frac_expansion, n_frac=self.n_frac+n_frac_expansion)
             y.set_val(self.val >> np.array(n - n_frac_expansion, dtype=self.val.dtype), raw=True)   # set raw val shifted
+            if self.status['inaccuracy']: y.status['inaccuracy'] = True
         else:
             y = self.deepcopy()
             # (through set_val: the value views `real` / `imag` follow, and the raw value stays an array)
@@ -1502,6 +1503,7 @@ class Fxp():
 
         y = Fxp(None, signed=self.signed, n_word=n_word, n_frac=self.n_frac)
         y.set_val(self.val << np.array(n, dtype=self.val.dtype), raw=True, vdtype=self.vdtype)   # set raw val shifted
+        if self.status['inaccuracy']: y.status['inaccuracy'] = True
         return y
     
     __ilshift__ = __lshift__
@@ -1836,6 +1838,9 @@ class Fxp():
         return self._set_array_output_type(_NUMPY_HANDLED_FUNCTIONS[func](*args, **kwargs))
 
     def _wrapped_numpy_func(self, func, *args, **kwargs):
+        # an inexact operand makes the result inexact (as for the operators)
+        _inaccuracy = any(isinstance(arg, self.__class__) and arg.status['inaccuracy'] for arg in args)
+
         # convert func inputs to numpy arrays
         args = [np.asarray(arg) if isinstance(arg, self.__class__) else arg for arg in args]
 
@@ -1890,12 +1895,15 @@ class Fxp():
             return val
 
         if out is not None:
-            return out(val)
+            z = out(val)
         elif out_like is not None:
-            return self.__class__(val, like=out_like)
+            z = self.__class__(val, like=out_like)
         else:
             # return wrapped result
-            return self.__array_wrap__(val)
+            z = self.__array_wrap__(val)
+        if _inaccuracy and isinstance(z, self.__class__):
+            z.status['inaccuracy'] = True
+        return z
 
     def _set_array_output_type(self, out_arr):
         if self.config._array_output_type == 'fxp':
